@@ -119,7 +119,7 @@ options_get_info(options_t     *options,     /* global options */
     if (options->all_chunk == 1 && options->all_comp == 0) {
         /* NONE option */
         if (options->chunk_g.rank == -2) {
-            chunk_flags = HDF_NONE;
+            *chunk_flags = HDF_NONE;
         }
 
         /*check if the input rank is correct (warn this one cannot be chunked) */
